@@ -217,6 +217,7 @@ func TestVFC20Reader(t *testing.T) {
 		defer func() { _ = r.Close() }()
 
 		c := vfC20NewCursor(files[0], files[1])
+		c.setUnknown()
 		positioned := false
 		counts := map[string]int{}
 		fellThrough := false
